@@ -8,6 +8,11 @@ looks at the Mako text.
 """
 
 
+def dlabel(d):
+    fl = ("b" if d["b"] else "") + ("f" if d["f"] is not None else "") + ("c" if d["c"] else "") + ("d" if d["d"] else "")
+    return "def[%s%s]" % (fl, "" if d["top"] else ";nested")
+
+
 class RBoom(Exception):
     def __init__(self, i):
         Exception.__init__(self, i)
@@ -46,6 +51,8 @@ class Ref:
         self.T = list(targets)
         self.bufs = [[]]
         self.raised = []
+        self.pkinds = []  # kind of each probe that fired
+        self.handled = []  # who handled each raise that was handled inside the render
         self.path = []  # labels of the stateful constructs entered and not left
         self.inside = []  # construct path at each raise
         self.writes_after = 0  # writes since the last raise
@@ -62,6 +69,8 @@ class Ref:
             "raised": list(self.raised),
             "inside": list(self.inside),
             "after": self.writes_after,
+            "pkinds": list(self.pkinds),
+            "handled": list(self.handled),
             "left": list(self.T),
         }
 
@@ -74,8 +83,9 @@ class Ref:
             self.writes_after += 1
         self.bufs[-1].append(s)
 
-    def probe(self, i):
+    def probe(self, i, kind="stmt"):
         if i in self.T:
+            self.pkinds.append(kind)
             self.T.remove(i)
             self.raised.append(i)
             self.inside.append(list(self.path))
@@ -109,6 +119,7 @@ class Ref:
             try:
                 self.block(s[1], env)
             except RBoom as e:
+                self.handled.append("try")
                 self.write("[x%d]" % e.i)
                 self.block(s[2], env)
         elif k == "for":
@@ -132,7 +143,7 @@ class Ref:
             finally:
                 t = self.pop()
                 self.path.pop()
-            self.probe(s[1])
+            self.probe(s[1], "textfilter")
             self.write("{" + t + "}")
         elif k == "inc":
             f = self.prog["files"][s[1]]
@@ -143,6 +154,7 @@ class Ref:
                 except RBoom:
                     if not self.ieh:
                         raise
+                    self.handled.append("ieh")
                     self.write("[IEH]")
             finally:
                 self.path.pop()
@@ -173,7 +185,7 @@ class Ref:
     def call(self, s, env):
         _, form, name, argprobe, content = s
         d, uri = self.defs[name]
-        self.probe(argprobe)  # the argument list is evaluated first
+        self.probe(argprobe, "arg")  # the argument list is evaluated first
         if form == "expr":
             self.write(self.calldef(d, uri, None))
         elif form == "cap":
@@ -194,22 +206,22 @@ class Ref:
     def calldef(self, d, uri, caller):
         if d["d"]:
             self.write("<d>")
-            self.probe(d["d"][0])
+            self.probe(d["d"][0], "deco-pre")
             r = self.calldef2(d, uri, caller)
             self.write("</d>")
-            self.probe(d["d"][1])
+            self.probe(d["d"][1], "deco-post")
             return r
         return self.calldef2(d, uri, caller)
 
     def filt(self, d, t):
         if d["f"] is not None:
-            self.probe(d["f"])
+            self.probe(d["f"], "filter[%s]" % dlabel(d))
             t = "{" + t + "}"
         return t
 
     def run_buffered(self, d, uri, caller):
         self.push()
-        self.path.append("buf")
+        self.path.append(dlabel(d))
         try:
             self.block(d["body"], Env(caller, uri))
         finally:
@@ -239,7 +251,7 @@ class Ref:
             t = self.run_buffered(d, uri, caller)
             self.write(self.filt(d, t))
             return ""
-        self.path.append("def")
+        self.path.append(dlabel(d))
         try:
             self.block(d["body"], Env(caller, uri))
         finally:
